@@ -6,7 +6,7 @@ import vlib
 def run(tier, seed, replay=None):
     ck = vlib.Check("C05", tier, seed, "model_checking")
     binary = vlib.build_harness()
-    c = dict(Ids='{"P","S","X"}', Signers='{"P","S"}', MaxEps=1, FIXED=True, EXPORT=True, SLIM=False)
+    c = dict(Ids='{"P","S","X"}', Signers='{"P","S"}', MaxEps=1, FIXED=True, EXPORT=True, SLIM=False, Texts="{}")
     r = vlib.tlc("AdSignature", ("c05.cfg", vlib.cfg_text(c, ["Agree", "ReturnsSigner", "ExportCase"])), timeout=3000, tag="c05")
     ck.add_tlc("AdSignature", r, "every ad shape x signer x key assignment x single mutation: Verify(Mutate(Sign)) = declarative outcome")
     if tier != "quick":
@@ -24,6 +24,14 @@ def run(tier, seed, replay=None):
     with open(os.path.join(r.workdir, "c05_cases.ndjson"), "a") as f:
         f.write(open(os.path.join(r2.workdir, "c05_cases.ndjson")).read())
     shutil.rmtree(r2.workdir, ignore_errors=True)
+    # strings that are no peer IDs where a provider is named (the advertisement's provider, entries): no key belongs to them, so an
+    # entry naming one is acceptable only as the advertisement's own provider, signed by the advertisement's signer
+    rt = vlib.tlc("AdSignature", ("c05t.cfg", vlib.cfg_text(dict(c, SLIM=True, MaxEps=2, Ids='{"P","S"}', Signers='{"P"}', Texts='{"T1","T2"}'), ["Agree", "ReturnsSigner", "ExportCase"])),
+                  timeout=3000, tag="c05t")
+    ck.add_tlc("AdSignature/texts", rt, "lists of 2 extended providers over two identities and two strings that are no peer IDs, the provider one of the three")
+    with open(os.path.join(r.workdir, "c05_cases.ndjson"), "a") as f:
+        f.write(open(os.path.join(rt.workdir, "c05_cases.ndjson")).read())
+    shutil.rmtree(rt.workdir, ignore_errors=True)
     p = vlib.tlc("AdSignature", ("c05p.cfg", vlib.cfg_text(dict(c, FIXED=False, EXPORT=False, MaxEps=1), ["Agree"])), workers=4, timeout=900, tag="c05p")
     ck.cov["tlc_runs"].append({"name": "pinned VerifySignature (FIXED=FALSE) must violate Agree", "violated": p.violated})
     if p.violated != "Agree":
